@@ -249,6 +249,15 @@ def _faulty(kind, mode, x):
         return wrap(np.array([1.0, 2.0]))
     if kind == "none":
         return wrap(None)
+    # the invalid value inside a one-element container (a target that returns `[nll]` or `nll,`): unwrapped first, then judged like any other
+    if kind == "wrapped_nan":
+        return wrap([float("nan")])
+    if kind == "wrapped_inf":
+        return wrap((float("inf"),))
+    if kind == "wrapped_complex":
+        return wrap([complex(1.0, 2.0)])
+    if kind == "wrapped_nan_array":
+        return wrap(np.array([[float("nan")]]))
     if kind == "notpair":
         return 1.0
     if kind == "sdzero":
